@@ -144,8 +144,11 @@ def _mk(fl, fault_at, seed, fault_kind='plus1'):
     rnd = loop.DetRandom(seed).install()
     p = Pair()
     schain, skey = loop.load_chain(loop.CRED_FILES[fl['srv']][0]), loop.load_key(loop.CRED_FILES[fl['srv']][1])
-    ss = settings(minv=fl['ver'], maxv=fl['ver'], **fl.get('s_settings', {}))
-    cs = settings(minv=fl['ver'], maxv=fl['ver'], **fl.get('c_settings', {}))
+    # a TLS 1.3-only client with the default curve list (brainpool ...) is refused by the server
+    # ("group forbidden in TLS 1.3"): offer 1.2 as well, 1.3 is negotiated
+    minv = (3, 3) if fl['ver'] == (3, 4) else fl['ver']
+    ss = settings(minv=minv, maxv=fl['ver'], **fl.get('s_settings', {}))
+    cs = settings(minv=minv, maxv=fl['ver'], **fl.get('c_settings', {}))
     if fl.get('kx'):
         ss.keyExchangeNames = list(fl['kx'])
         cs.keyExchangeNames = list(fl['kx'])
